@@ -3,6 +3,7 @@ CONSTANTS
   Kind = "p"
   MaxOps = 3
   Gen = TRUE
+  Tx = TRUE
   Alphabet = "large"
 INVARIANTS IsMap QuerySound CandidatesSound NQUnique
 PROPERTIES StepProps
